@@ -266,6 +266,22 @@ def check_narrow_integers(ctx, ns, path, N, rng):
             ctx.close(nm + "_integer_image_integer_spacing", got, want.astype(got.dtype), 1e-10 * sc, nm + ":integer_image_integer_spacing", wit, scale=sc)
 
 
+def check_half_precision(ctx, ns, path, N, rng):
+    """float16 samples (camera frames stored compactly) with spacings far from 1: the scaling must not be done in the samples' own type."""
+    x = rng.standard_normal((N, N)).astype(np.float16)
+    for d in (1e-3, 2.5e-5, 300.0):
+        wit = {"path": path, "N": N, "dtype": "float16", "delta": d}
+        ctx.case("half_precision_image", key=(path, N, d), nontrivial=True, sample=wit)
+        # (forward transforms only: numpy.fft.ifft itself forms its 1/N factor in half precision for float16 input, 2.4e-4 off for N = 7)
+        for nm, f, g, arr in (("ft2", ns.ft2, ns.ift2, x), ("ft", ns.ft, ns.ift, x[0])):
+            got = f(arr, d)
+            want = f(arr.astype(np.float64), d)
+            sc = float(np.abs(want).max()) + 1e-300
+            ctx.close(nm + "_float16_samples", got, want.astype(got.dtype), 1e-5 * sc, nm + ":half_precision_samples", wit, scale=sc)
+            back = g(got, 1.0 / (N * d))
+            ctx.close(nm + "_float16_round_trip", back, arr.astype(back.dtype), 1e-4 * float(np.abs(arr).max()), nm + ":half_precision_samples:round_trip", wit)
+
+
 def check_spacing_objects(ctx, ns, path, N, rng):
     """The spacings handed over as 0-d / 1-element arrays and used for several calls: every call is the same inverse pair."""
     for mk, nmk in ((lambda v: np.asarray(v), "0d_array"), (lambda v: np.array([v]), "1_element_array"), (lambda v: np.float32(v), "float32_scalar")):
@@ -345,5 +361,6 @@ def run(ctx, spec):
                     check_narrow_integers(ctx, ns, path, N, rng)
                 if N in (7, 8, 16, 33) and rep == 0:
                     check_spacing_objects(ctx, ns, path, N, rng)
+                    check_half_precision(ctx, ns, path, N, rng)
         if spec["shard"] in (3, 11) and rep == 0:
             check_deep_stack(ctx, mod_ns if spec["shard"] == 3 else top_ns, "module" if spec["shard"] == 3 else "top_level", rng)
